@@ -78,7 +78,7 @@ def execute(arg):
         # pre-populate the stored subset from the alternative source chunking
         if cfg["stored"]:
             st0 = strax.Context(storage=[strax.DataDirectory(d)], register=classes(cfg["alt"], cfg["ch2"], rechunk, tiny),
-                                allow_multiprocess=False, timeout=120)
+                                allow_multiprocess=False, timeout=300)
             for t in cfg["stored"]:
                 st0.make("0", t, progress_bar=False)
             for name in os.listdir(d):
@@ -88,7 +88,7 @@ def execute(arg):
         before = {n.split("-")[1] for n in os.listdir(d) if len(n.split("-")) == 3}
         st = strax.Context(storage=[strax.DataDirectory(d)], register=classes(cfg["ch1"], cfg["ch2"], rechunk, tiny),
                            allow_multiprocess=False, allow_lazy=setting["lazy"], max_messages=setting["mm"], allow_rechunk=rechunk,
-                           timeout=120 if not setting["dsched"] else 3600)
+                           timeout=300 if not setting["dsched"] else 3600)
         target = cfg["target"]
         chunks = []
 
